@@ -183,12 +183,48 @@ fn accessors(src: &mut Src, path: &str, owner: &str, lean: &str) -> Result<Strin
 
 // ---------------------------------------------------------------- G8 call-order skeletons
 
-const SKEL_CALLS: [&str; 30] = ["check", "take_inner", "inner_duplicate", "inner_ref", "inner_ref_mut", "as_mut_ptr", "_advance", "advance",
+// Writes of the two private plain fields (`set_local_index`, `set_cached_avail`) are not part of a skeleton: their effect is in
+// the symbolically executed definitions (`index'`, `cached'`); a skeleton is the order of the externally visible actions.
+const SKEL_CALLS: [&str; 28] = ["check", "take_inner", "inner_duplicate", "inner_ref", "inner_ref_mut", "as_mut_ptr", "_advance", "advance",
     "advance_local", "set_atomic_index", "next_ref_mut_init", "next_ref_mut", "next_ref", "next", "next_duplicate", "next_chunk", "next_chunk_mut",
-    "succ_index", "set_local_index", "set_cached_avail", "_available", "available", "sync_index", "get_workable_slice_exact", "peek_slice",
+    "succ_index", "_available", "available", "sync_index", "get_workable_slice_exact", "peek_slice",
     "release_iter", "drop", "set_prod_alive", "set_work_alive", "set_cons_alive"];
 
-struct SkelVisitor { out: Vec<String> }
+#[derive(Default)]
+struct SkelVisitor {
+    out: Vec<String>,
+    /// `let x = <expr>` bindings seen so far (normalised text), used to name arguments by what they are, not by how a local is called
+    lets: std::collections::HashMap<String, String>,
+    /// parameter names of the function (an argument that is a parameter is `.count`)
+    params: Vec<String>,
+    /// private helper methods of the same `impl`, inlined when called on `self`
+    helpers: std::collections::HashMap<String, syn::Block>,
+    depth: usize,
+}
+
+impl SkelVisitor {
+    fn resolve(&self, t: &str) -> String {
+        let mut t = t.to_string();
+        for _ in 0..4 { match self.lets.get(&t) { Some(v) => t = v.clone(), None => break } }
+        t
+    }
+    fn arg(&self, args: &syn::punctuated::Punctuated<Expr, syn::token::Comma>) -> String {
+        match args.len() {
+            0 => ".none".into(),
+            1 => {
+                let raw = q(&args[0]);
+                let raw = raw.trim_start_matches('*').to_string();
+                if self.params.contains(&raw) { return ".count".into(); }
+                let t = self.resolve(&raw);
+                if let Ok(n) = t.parse::<u64>() { format!("(.lit {n})") }
+                else if self.params.contains(&t) || t.strip_suffix(".len()").map(|x| self.params.contains(&x.to_string())).unwrap_or(false) { ".count".into() }
+                else if ["self._index()", "self.index()", "self.index", "self.inner.index()", "self.inner.inner().index()", "self.inner.inner_mut().index()"].contains(&t.as_str()) { ".index".into() }
+                else { format!("(.other \"{}\")", t.replace('"', "'")) }
+            }
+            _ => ".many".into(),
+        }
+    }
+}
 
 fn camel(name: &str) -> String {
     let mut s = String::new(); let mut up = false;
@@ -197,22 +233,27 @@ fn camel(name: &str) -> String {
     s
 }
 
-fn arg_lean(args: &syn::punctuated::Punctuated<Expr, syn::token::Comma>) -> String {
-    match args.len() {
-        0 => ".none".into(),
-        1 => { let t = q(&args[0]); if let Ok(n) = t.parse::<u64>() { format!("(.lit {n})") } else if t == "count" || t == "*count" { ".count".into() } else if t == "self._index()" || t == "self.inner.index()" || t == "self.inner.inner().index()" { ".index".into() } else { format!("(.other \"{t}\")") } }
-        _ => ".many".into(),
-    }
-}
-
 impl<'ast> Visit<'ast> for SkelVisitor {
+    fn visit_local(&mut self, l: &'ast syn::Local) {
+        if let Some(init) = &l.init { self.visit_expr(&init.expr); }
+        let name = match &l.pat { syn::Pat::Ident(i) => Some(i.ident.to_string()), syn::Pat::Type(t) => match &*t.pat { syn::Pat::Ident(i) => Some(i.ident.to_string()), _ => None }, _ => None };
+        if let (Some(n), Some(init)) = (name, &l.init) { let v = self.resolve(&q(&init.expr)); self.lets.insert(n, v); }
+    }
     fn visit_expr(&mut self, e: &'ast Expr) {
         match e {
             Expr::MethodCall(m) => {
                 self.visit_expr(&m.receiver);
                 for a in &m.args { self.visit_expr(a); }
                 let name = m.method.to_string();
-                if SKEL_CALLS.contains(&name.as_str()) { self.out.push(format!("⟨.{}, {}⟩", camel(&name), arg_lean(&m.args))); }
+                if SKEL_CALLS.contains(&name.as_str()) { let a = self.arg(&m.args); self.out.push(format!("⟨.{}, {}⟩", camel(&name), a)); }
+                else if q(&m.receiver) == "self" && self.depth < 2 {
+                    if let Some(b) = self.helpers.get(&name).cloned() {
+                        // a private helper of the same impl: what it does counts as done here
+                        let mut inner = SkelVisitor { helpers: self.helpers.clone(), depth: self.depth + 1, ..Default::default() };
+                        inner.visit_block(&b);
+                        self.out.extend(inner.out);
+                    }
+                }
             }
             Expr::Call(c) => {
                 for a in &c.args { self.visit_expr(a); }
@@ -242,7 +283,21 @@ fn skeleton(src: &mut Src, path: &str, owner: &str, func: &str, cfg_not_vmem: bo
     }
     scan(&file.items, owner, func, cfg_not_vmem, &mut blk);
     let b = blk.ok_or(format!("fn `{func}` of `{owner}` not found in {path}"))?;
-    let mut v = SkelVisitor { out: vec![] };
+    let mut v = SkelVisitor::default();
+    // parameters of the function and private helpers of the same impl / trait
+    for it in &file.items { match it {
+        syn::Item::Impl(i) => { let ty = &i.self_ty; let mut head = quote::quote!(#ty).to_string().replace(' ', "");
+            if let Some((_, tr, _)) = &i.trait_ { head = format!("{}for{}", quote::quote!(#tr).to_string().replace(' ', ""), head); }
+            if !head.contains(owner) { continue; }
+            for ii in &i.items { if let syn::ImplItem::Fn(f) = ii {
+                if std::ptr::eq(&f.block, b) { v.params = f.sig.inputs.iter().filter_map(|a| match a { syn::FnArg::Typed(t) => match &*t.pat { syn::Pat::Ident(i) => Some(i.ident.to_string()), _ => None }, _ => None }).collect(); }
+                else if matches!(f.vis, syn::Visibility::Inherited) && !SKEL_CALLS.contains(&f.sig.ident.to_string().as_str()) { v.helpers.insert(f.sig.ident.to_string(), f.block.clone()); }
+            } } }
+        syn::Item::Trait(t) => { if t.ident != owner { continue; }
+            for ti in &t.items { if let syn::TraitItem::Fn(f) = ti { if let Some(d) = &f.default {
+                if std::ptr::eq(d, b) { v.params = f.sig.inputs.iter().filter_map(|a| match a { syn::FnArg::Typed(t) => match &*t.pat { syn::Pat::Ident(i) => Some(i.ident.to_string()), _ => None }, _ => None }).collect(); }
+            } } } }
+        _ => {} } }
     v.visit_block(b);
     Ok(format!("[{}]", v.out.join(", ")))
 }
@@ -392,6 +447,60 @@ fn flatten_mul(e: &Expr, out: &mut Vec<String>) {
     }
 }
 
+/// Replaces the uses of every simple, pure `let x = e;` of a block (at any depth) by `(e)`, so that what is analysed does not depend on
+/// which sub-expressions the author chose to name. Lets whose initialiser calls a function (other than pointer arithmetic / `as_ptr`)
+/// or that are listed in `protect` are left alone.
+fn inline_pure_lets(b: &syn::Block, protect: &[&str]) -> Result<syn::Block, String> {
+    use proc_macro2::{TokenStream, TokenTree, Group, Delimiter};
+    fn collect(b: &syn::Block, protect: &[&str], out: &mut Vec<(String, TokenStream)>) {
+        struct V<'p> { protect: &'p [&'p str], out: Vec<(String, TokenStream)> }
+        impl<'ast, 'p> Visit<'ast> for V<'p> {
+            fn visit_local(&mut self, l: &'ast syn::Local) {
+                syn::visit::visit_local(self, l);
+                let name = match &l.pat { syn::Pat::Ident(i) if i.mutability.is_none() => i.ident.to_string(), syn::Pat::Type(t) => match &*t.pat { syn::Pat::Ident(i) if i.mutability.is_none() => i.ident.to_string(), _ => return }, _ => return };
+                if self.protect.contains(&name.as_str()) { return; }
+                let init = match &l.init { Some(i) if i.diverge.is_none() => &i.expr, _ => return };
+                struct Pure { ok: bool }
+                impl<'a> Visit<'a> for Pure {
+                    fn visit_expr_call(&mut self, _: &'a syn::ExprCall) { self.ok = false; }
+                    fn visit_expr_macro(&mut self, _: &'a syn::ExprMacro) { self.ok = false; }
+                    fn visit_expr_method_call(&mut self, m: &'a syn::ExprMethodCall) {
+                        if !["as_ptr", "as_mut_ptr", "byte_add", "add", "len", "clone"].contains(&m.method.to_string().as_str()) { self.ok = false; }
+                        syn::visit::visit_expr_method_call(self, m);
+                    }
+                    fn visit_expr_unsafe(&mut self, _: &'a syn::ExprUnsafe) { self.ok = false; }
+                }
+                let mut p = Pure { ok: true };
+                p.visit_expr(init);
+                if p.ok { self.out.push((name, quote::quote!(#init))); }
+            }
+        }
+        let mut v = V { protect, out: vec![] };
+        v.visit_block(b);
+        out.extend(v.out);
+    }
+    fn subst(ts: TokenStream, name: &str, rep: &TokenStream) -> TokenStream {
+        let mut out: Vec<TokenTree> = vec![];
+        let mut prev_blocks = false; // previous token is `.` or `:` or `let`
+        for t in ts {
+            match t {
+                TokenTree::Ident(ref i) if i == name && !prev_blocks => { out.push(TokenTree::Group(Group::new(Delimiter::Parenthesis, rep.clone()))); prev_blocks = false; }
+                TokenTree::Group(g) => { let mut ng = Group::new(g.delimiter(), subst(g.stream(), name, rep)); ng.set_span(g.span()); out.push(TokenTree::Group(ng)); prev_blocks = false; }
+                TokenTree::Punct(ref p) => { prev_blocks = p.as_char() == '.' || p.as_char() == ':'; out.push(t); }
+                TokenTree::Ident(ref i) => { prev_blocks = i == "let"; out.push(t); }
+                other => { prev_blocks = false; out.push(other); }
+            }
+        }
+        out.into_iter().collect()
+    }
+    let mut lets = vec![];
+    collect(b, protect, &mut lets);
+    let mut ts = quote::quote!(#b);
+    // later lets may mention earlier ones: substitute in reverse order of definition, twice
+    for _ in 0..2 { for (n, rep) in lets.iter().rev() { ts = subst(ts, n, rep); } }
+    syn::parse2::<syn::Block>(ts).map_err(|e| format!("after inlining the local bindings the body does not parse: {e}"))
+}
+
 struct Calls<'a> { found: Vec<(String, &'a syn::ExprCall)> }
 impl<'a> Visit<'a> for Calls<'a> {
     fn visit_expr_call(&mut self, c: &'a syn::ExprCall) {
@@ -408,17 +517,20 @@ fn vmem_calls(src: &mut Src) -> Result<String, String> {
     let helper = "src/ring_buffer/storage/heap/vmem_helper.rs";
     let file = src.file(helper)?.clone();
     let f = find_fn(&file, "", "new").ok_or("vmem_helper::new not found")?;
-    let body = f.block;
     // `size` must be the byte size of the source slice
+    let txt0 = { let b = f.block; quote::quote!(#b).to_string().replace(' ', "") };
+    if !txt0.contains("letsize=size_of_val(value);") { return Err("vmem_helper::new: `let size = size_of_val(value);` not found".into()); }
+    let inlined = inline_pure_lets(f.block, &["size"])?;
+    let body = &inlined;
     let txt = quote::quote!(#body).to_string().replace(' ', "");
-    if !txt.contains("letsize=size_of_val(value);") { return Err("vmem_helper::new: `let size = size_of_val(value);` not found".into()); }
     o.push_str(&format!("def vmemAssertsPageMultiple : Bool := {}\n", txt.contains("assert_eq!(value.len()%page_size,0")));
     let mut v = Calls { found: vec![] };
     v.visit_block(body);
     let mut maps = vec![];
     let mut copies = vec![];
-    // names bound to the first mapping: `buffer` (the mmap result) and `r` (its cast)
-    let fresh = |s: &str| s == "r" || s == "buffer";
+    // the name bound to the first mapping (the result of the first `mmap`); casts of it have been inlined away
+    let first_map: String = { let i = txt.find("=libc::mmap(").ok_or("vmem_helper::new: no `let x = libc::mmap(..)`")?; txt[..i].rsplit("let").next().unwrap_or("").trim_start_matches("mut").to_string() };
+    let fresh = |s: &str| s == first_map;
     for (n, c) in &v.found {
         let a: Vec<&Expr> = c.args.iter().collect();
         match n.as_str() {
@@ -461,7 +573,7 @@ fn vmem_calls(src: &mut Src) -> Result<String, String> {
     o.push_str(&format!("def vmemCopies : List CopyCall := [{}]\n", copies.join(", ")));
     // what `new` returns
     let ret = match body.stmts.last() {
-        Some(Stmt::Expr(Expr::Unsafe(u), None)) => match u.block.stmts.last() { Some(Stmt::Expr(e, None)) => q(e), _ => return Err("vmem_helper::new: no tail expression".into()) },
+        Some(Stmt::Expr(Expr::Unsafe(u), None)) => match u.block.stmts.last() { Some(Stmt::Expr(e, None)) => q(strip_cast(e)), _ => return Err("vmem_helper::new: no tail expression".into()) },
         _ => return Err("vmem_helper::new: body does not end in an unsafe block".into()),
     };
     o.push_str(&format!("def vmemReturnsFirstMapping : Bool := {}\n", fresh(&ret)));
@@ -565,8 +677,8 @@ fn construction(src: &mut Src) -> Result<String, String> {
             let name = f.sig.ident.to_string();
             if name != "split" && name != "split_mut" { continue; }
             let (mut resets, mut alive, mut iters, mut bufref) = (vec![], vec![], vec![], String::new());
-            let mut v = SkelVisitor { out: vec![] };
-            let _ = &mut v;
+            // bindings of the function (`let prod = ProdIter::new(..)`), so that the returned tuple is read by what it holds
+            let mut lets: std::collections::HashMap<String, String> = std::collections::HashMap::new();
             for st in &f.block.stmts {
                 let t = quote::quote!(#st).to_string().replace(' ', "");
                 for (m, fld) in [("set_prod_index", ".prod"), ("set_work_index", ".work"), ("set_cons_index", ".cons")] {
@@ -575,9 +687,20 @@ fn construction(src: &mut Src) -> Result<String, String> {
                 for (m, r) in [("set_prod_alive", ".P"), ("set_work_alive", ".W"), ("set_cons_alive", ".C")] {
                     if t.starts_with(&format!("self.{m}(")) { if t == format!("self.{m}(true);") { alive.push(r.to_string()); } else { return Err(format!("{name}: `{t}`")); } }
                 }
-                if t.starts_with("letr=BufRef::") { bufref = t.trim_start_matches("letr=BufRef::").split('(').next().unwrap_or("").to_string(); }
-                if t.starts_with('(') {
-                    for (c, r) in [("ProdIter::new(", ".P"), ("WorkIter::new(", ".W"), ("ConsIter::new(", ".C")] { if t.contains(c) { iters.push((t.find(c).unwrap(), r.to_string())); } }
+                if let Stmt::Local(l) = st {
+                    if let (syn::Pat::Ident(i), Some(init)) = (&l.pat, &l.init) {
+                        let rhs = q(&init.expr);
+                        if let Some(k) = rhs.strip_prefix("BufRef::") { bufref = k.split('(').next().unwrap_or("").to_string(); }
+                        lets.insert(i.ident.to_string(), rhs);
+                    }
+                }
+                if let Stmt::Expr(Expr::Tuple(tp), None) = st {
+                    for e in &tp.elems {
+                        let mut x = q(e);
+                        for _ in 0..3 { if let Some(v) = lets.get(&x) { x = v.clone(); } }
+                        let r = if x.starts_with("ProdIter::new(") { ".P" } else if x.starts_with("WorkIter::new(") { ".W" } else if x.starts_with("ConsIter::new(") { ".C" } else { return Err(format!("{name}: tuple element `{x}`")); };
+                        iters.push((iters.len(), r.to_string()));
+                    }
                 }
             }
             iters.sort();
@@ -767,7 +890,16 @@ fn async_delegation(src: &mut Src) -> Result<String, String> {
     let file = src.file("src/iterators/async_iterators/mod.rs")?;
     let f = find_fn(file, "MRBFuture", "poll").ok_or("MRBFuture::poll not found")?;
     let b = f.block;
-    o.push_str(&format!("def pinPoll : String := \"{}\"\n", quote::quote!(#b).to_string().replace(' ', "").replace('"', "'")));
+    // the shape of `poll`, by counting and ordering its landmarks (robust against renamings and restructurings of the loop body):
+    // the attempt (a call with `self.iter` as first argument, one per value of `R`), the waker registration, the two results,
+    // the restoration of the payload
+    let t = quote::quote!(#b).to_string().replace(' ', "");
+    let pos = |pat: &str| t.find(pat);
+    let cnt = |pat: &str| t.matches(pat).count();
+    let before = |a: Option<usize>, b: Option<usize>| matches!((a, b), (Some(x), Some(y)) if x < y);
+    o.push_str(&format!("def pollShape : PollShape := {{ hasLoop := {}, attemptSites := {}, registerSites := {}, readySites := {}, pendingSites := {}, restoresPayload := {}, attemptBeforeRegister := {}, pendingBeforeRegister := {} }}\n",
+        t.contains("loop{"), cnt("(self.iter,"), cnt(".register_waker("), cnt("Poll::Ready("), cnt("Poll::Pending"), t.contains("self.p=Some("),
+        before(pos("(self.iter,"), pos(".register_waker(")), before(pos("Poll::Pending"), pos(".register_waker("))));
     Ok(o)
 }
 
